@@ -93,14 +93,14 @@ func (e *env) exec(st *step, mode kvx.FaultMode) *result {
 	}()
 	res.Injected, res.Writes = e.kv.Injected(), e.kv.Writes()
 	e.kv.ResetFaults()
-	res.log = e.kv.Log()
+	res.after = servedSecs(e.s)
+	res.storedAfter = e.stored()
+	res.log = e.kv.Log() // taken last: whatever touched the store before the snapshots is in it
 	for _, x := range res.log {
 		if x.Kind == "Save" && x.Key == configKey && (x.Err == "" || x.Fault == "lost-ack") {
 			res.configWrites++
 		}
 	}
-	res.after = servedSecs(e.s)
-	res.storedAfter = e.stored()
 	return res
 }
 
